@@ -1196,3 +1196,45 @@ pub fn mkdir_m(guard: &mut MemfsGuard, path: &PathBuf, mode: u32) -> (r: RvResul
             &&& (a is Some) ==> (r is Ok) == (mk_err(s0, a->Some_0, Some(mode), a->Some_0.len()) is None)
         }),
 //@ body
+
+// =====================================================================================================================
+// Memfs::new: the initial state satisfies wf (base case of the induction over histories)
+// HashMap<PathBuf, MemfsEntry> / HashMap<PathBuf, MemfsFile> as finite maps (ASSUMED[hashmap])
+#[verifier::external_body] pub struct MemfsEntries { x: u8 }
+#[verifier::external_body] pub struct MemfsFiles { x: u8 }
+impl MemfsEntries {
+    pub uninterp spec fn view(&self) -> Map<PathV, EntryV>;
+    #[verifier::external_body] pub fn new() -> (r: MemfsEntries) ensures r@ == Map::<PathV, EntryV>::empty() { unimplemented!() }
+    #[verifier::external_body] pub fn insert(&mut self, k: PathBuf, v: MemfsEntry) requires k.abs_clean() ensures final(self)@ == old(self)@.insert(k@, v.ev()) { unimplemented!() }
+}
+impl MemfsFiles {
+    pub uninterp spec fn view(&self) -> Map<PathV, FileV>;
+    #[verifier::external_body] pub fn new() -> (r: MemfsFiles) ensures r@ == Map::<PathV, FileV>::empty() { unimplemented!() }
+}
+//@ struct file=src/sys/fs/memfs/vfs.rs name=MemfsInner
+//@ endstruct
+impl Memfs {
+    // the state a guard of this instance observes before any operation
+    pub uninterp spec fn initial_st(&self) -> St;
+    // R11: `Self(Arc::new(RwLock::new(inner)))`.  ASSUMED[guard]: the guards of the new instance see exactly `inner`
+    #[verifier::external_body]
+    pub fn from_inner(inner: MemfsInner) -> (r: Memfs)
+        ensures r.initial_st() == (St { entries: inner.entries@, files: inner.files@, cwd: inner.cwd@, cwd_ok: inner.cwd.abs_clean() })
+    { unimplemented!() }
+    #[verifier::external_body]
+    pub fn root_component() -> (r: Component) ensures r@ == Comp::RootDir { unimplemented!() }
+
+//@ item memfs_new file=src/sys/fs/memfs/vfs.rs block="impl Memfs" fn=new props=C03,C01,C12
+//@ sig pub fn new() -> Self
+//@ rw R8 1 ⟦root.push(Component::RootDir);⟧ => ⟦root.push(Memfs::root_component());⟧
+//@ rw R4 1 ⟦let mut entries = HashMap::new();⟧ => ⟦let mut entries = MemfsEntries::new();⟧
+//@ rw R4 1 ⟦files: HashMap::new(),⟧ => ⟦files: MemfsFiles::new(),⟧
+//@ rw R11 1 ⟦Self(Arc::new(RwLock::new(MemfsInner {⟧ => ⟦Memfs::from_inner((MemfsInner {⟧
+//@ rw R11 1 re⟦\}\)\)\)\s*\}\s*$⟧ => ⟦})) }⟧
+    pub fn new() -> (r: Memfs)
+        ensures
+            r.initial_st().entries =~= Map::<PathV, EntryV>::empty().insert(root(), dir_entry(root(), None)),     //@ clause new.only_the_root_directory [C01]
+            r.initial_st().files =~= Map::<PathV, FileV>::empty(), r.initial_st().cwd == root(), r.initial_st().cwd_ok,
+            wf(r.initial_st()),                                                                                      //@ clause new.establishes_wf [C03]
+//@ body
+}
